@@ -1,7 +1,10 @@
 #!/bin/bash
-# runs every registered check's quick command sequentially; prints id, exit code, seconds
+# tools/runall.sh [quick|thorough] [ids...]: runs registered checks sequentially; prints id, exit code, seconds
 cd /verif
-for id in $(/venv/bin/python -c "import json;print(' '.join(c['property_id'] for c in json.load(open('MANIFEST.json'))['checks']))"); do
-  t0=$(date +%s); ./vcheck $id --tier ${1:-quick} > /tmp/runall_$id.log 2>&1; rc=$?; t1=$(date +%s)
-  echo "$id rc=$rc $((t1-t0))s $(tail -1 /tmp/runall_$id.log | cut -c1-160)"
+tier=${1:-quick}; shift
+ids="$@"
+[ -z "$ids" ] && ids=$(/venv/bin/python -c "import json;print(' '.join(c['property_id'] for c in json.load(open('MANIFEST.json'))['checks']))")
+for id in $ids; do
+  t0=$(date +%s); ./vcheck $id --tier $tier > /tmp/runall_${tier}_$id.log 2>&1; rc=$?; t1=$(date +%s)
+  echo "$id rc=$rc $((t1-t0))s $(tail -1 /tmp/runall_${tier}_$id.log | cut -c1-160)"
 done
